@@ -18,7 +18,7 @@ import (
 var kindNames = map[string]string{
 	"IDX": "index in range", "SLC": "slice bounds in range", "MK": "make length valid", "SHF": "shift count non-negative",
 	"DIV": "divisor non-zero", "NIL": "pointer non-nil", "PRE": "stdlib precondition", "ASRT": "assertion/panic unreachable",
-	"EXT": "callee modelled", "CTR": "contract",
+	"EXT": "callee modelled", "CTR": "contract", "WRAP": "no narrow-integer wrap-around",
 }
 
 // boundsRun analyses the entries (one engine per entry, in parallel) and reports every
@@ -152,6 +152,9 @@ func boundsRun(c *Ctx, entries []*ssa.Function, hooks *bounds.Hooks) int {
 			text = o.Text + ": " + text
 		}
 		fname := core.FuncName(o.Fn)
+		if o.Kind == "WRAP" && !c.wrapScope[fname] {
+			continue // wrap-around is only a finding where the property's decoders must not wrap
+		}
 		if c.collectOnly {
 			// first (high-precision) pass of the thorough tier: remember what it discharged
 			failed := map[string]bool{}
